@@ -76,33 +76,20 @@ const (
 // traversalClosure returns FileMatcher.Match, its astutil.Apply call and the
 // pre-order callback closure.
 func traversalClosure(r *an.Run) (f *ssa.Function, apply ssa.CallInstruction, clo *ssa.Function) {
-	f = fn(r, engine, "FileMatcher.Match")
-	if f == nil {
-		return
+	t := traversalState(r)
+	if t == nil {
+		return nil, nil, nil
 	}
-	calls := an.CallsTo(f, astutilApply)
-	if !r.Check(len(calls) == 1, short(f)+"|astutil.Apply", f.Pos(), "FileMatcher.Match has %d astutil.Apply traversal(s), expected exactly 1", len(calls)) {
-		return f, nil, nil
-	}
-	apply = calls[0]
-	args := apply.Common().Args
-	if mc, ok := an.Unwrap(args[1]).(*ssa.MakeClosure); ok {
-		clo, _ = mc.Fn.(*ssa.Function)
-	} else if fv, ok := an.Unwrap(args[1]).(*ssa.Function); ok {
-		clo = fv
-	}
-	if clo == nil {
-		r.Undecided(short(f)+"|pre-callback", apply.Pos(), "the pre callback of astutil.Apply is not a function literal: cannot analyse the traversal")
-	}
-	return
+	return t.f, t.apply, t.clo
 }
 
 func c01Traversal(r *an.Run) {
 	r.Rule("R1-traversal-complete")
-	f, apply, clo := traversalClosure(r)
-	if apply == nil || clo == nil {
+	ts := traversalState(r)
+	if ts == nil || ts.apply == nil || ts.clo == nil {
 		return
 	}
+	f, apply, clo := ts.f, ts.apply, ts.clo
 	args := apply.Common().Args
 	key := short(f)
 	r.Check(an.Unwrap(args[0]) == ssa.Value(paramAt(f, 0)), key+"|root", apply.Pos(),
@@ -110,6 +97,9 @@ func c01Traversal(r *an.Run) {
 	r.Check(an.IsNilConst(an.Unwrap(args[2])), key+"|post", apply.Pos(), "the post callback is nil (no node can be skipped or replaced after its subtree)")
 
 	cursor := clo.Params[0]
+	if ts.recv != nil && len(clo.Params) > 1 {
+		cursor = clo.Params[1]
+	}
 	// the node under test
 	var nodeCalls []ssa.Value
 	for _, c := range an.CallsTo(clo, cursorNode) {
@@ -125,7 +115,13 @@ func c01Traversal(r *an.Run) {
 	vc := vcs[0]
 	r.Count("traversal-callback", 1)
 	margs := an.CallArgs(vc.Call)
-	r.Check(an.Path(margs[0]) == "m.NodeMatcher", short(clo)+"|matcher", vc.Call.Pos(), "the matcher invoked is m.NodeMatcher (got %q)", an.Path(margs[0]))
+	matcherOK := an.Path(margs[0]) == "m.NodeMatcher"
+	if cell, isCell := ts.loadedCell(margs[0]); isCell && !matcherOK {
+		// the matcher travels in the traversal state: it must have been put there from m.NodeMatcher, once
+		sts := ts.parentStores(cell)
+		matcherOK = len(sts) == 1 && an.Path(sts[0].Val) == "m.NodeMatcher"
+	}
+	r.Check(matcherOK, short(clo)+"|matcher", vc.Call.Pos(), "the matcher invoked is m.NodeMatcher (got %q)", an.Path(margs[0]))
 	r.Check(derivesFrom(margs[1], nodeCalls...), short(clo)+"|subject", vc.Call.Pos(), "the value matched is built from cursor.Node() of the callback's own cursor")
 
 	// returns: false (= do not descend) only under node==nil or a true verdict
@@ -168,7 +164,7 @@ func c01Traversal(r *an.Run) {
 	for _, b := range clo.Blocks {
 		for _, in := range b.Instrs {
 			if st, ok := in.(*ssa.Store); ok {
-				if fv, ok := st.Addr.(*ssa.FreeVar); ok && strings.HasSuffix(an.ShortType(fv.Type()), "[]*engine.SearchResult") {
+				if _, isCell := ts.cellOf(st.Addr); isCell && strings.HasSuffix(an.ShortType(st.Addr.Type()), "[]*engine.SearchResult") {
 					store = st
 				}
 			}
@@ -313,6 +309,13 @@ func c01AllMatchesReplaced(r *an.Run) {
 		r.Check(helperFailurePropagates(f, g), short(f)+"|helper-failure-propagates", f.Pos(), "a failure of %s makes FileReplacer.Replace fail", short(g))
 	}
 	calls := callsInLoop(il.Loop, replReplace)
+	if len(calls) == 0 {
+		// the replacement of one match may live in a per-match helper called from the loop
+		if s := findSlotSite(r); s != nil && s.perMatchCall != nil && len(s.calls(replReplace)) == 1 {
+			calls = []ssa.CallInstruction{s.perMatchCall}
+			r.Check(helperFailurePropagates(s.loopFn, s.fn), short(f)+"|per-match-failure-propagates", s.perMatchCall.Pos(), "a failure of %s leaves the loop with that failure", short(s.fn))
+		}
+	}
 	if !r.Check(len(calls) == 1, short(f)+"|replace-call", il.If.Pos(), "the loop calls the node replacer once per match (found %d call(s))", len(calls)) {
 		return
 	}
